@@ -97,4 +97,12 @@ def main(argv=None):
 
 
 if __name__ == "__main__":
-    sys.exit(main())
+    try:
+        code = main()
+    except SystemExit:
+        raise
+    except BaseException as e:            # an internal fault must never look like a verdict (exit 1 is reserved for reproduced violations)
+        traceback.print_exc()
+        print(f"INCONCLUSIVE: checker crashed: {type(e).__name__}: {e}")
+        code = 2
+    sys.exit(code)
